@@ -26,23 +26,25 @@ const (
 	xArchive = xStaging + "/artifact.tar.gz"
 )
 
-// symName draws an entry name of at most maxLen characters over the alphabet
-// {'/', '.', 'a'}: the only bytes filepath.Clean, IsAbs and the prefix checks
-// distinguish on unix (every other byte behaves like 'a').
-func symName(tag string, maxLen int) string {
-	n := verifConcrete(verifChoice(tag+"len", maxLen+1))
-	b := make([]byte, 0, n)
-	for i := 0; i < n; i++ {
-		switch verifConcrete(verifChoice(tag+"ch", 3)) {
-		case 0:
-			b = append(b, '/')
-		case 1:
-			b = append(b, '.')
-		default:
-			b = append(b, 'a')
-		}
+// symName draws an entry name as a sequence of at most maxComp path components
+// from {"", ".", "..", "a", "..a"} joined by '/', optionally with a leading '/':
+// the path logic under test (Clean, IsAbs, the ".." prefix checks, Join) works
+// on components, and these are the component classes it distinguishes on unix
+// (empty, current, parent, ordinary, ordinary starting with dots).
+func symName(tag string, maxComp int) string {
+	comps := []string{"", ".", "..", "a", "..a"}
+	n := 1 + verifConcrete(verifChoice(tag+"ncomp", maxComp))
+	name := ""
+	if verifBool(tag + "abs") {
+		name = "/"
 	}
-	return string(b)
+	for i := 0; i < n; i++ {
+		if i > 0 {
+			name += "/"
+		}
+		name += comps[verifConcrete(verifChoice(tag+"comp", len(comps)))]
+	}
+	return name
 }
 
 func symType(tag string) byte {
@@ -101,7 +103,7 @@ func xConfined(fs *zzvfs.FS, before []string) {
 // VerifC19ExtractName: one entry with an adversarial name (and a benign second
 // entry so that success is reachable), every entry type.
 func VerifC19ExtractName() {
-	maxLen := verifParam("maxlen", 6)
+	maxLen := verifParam("maxcomp", 4)
 	name := symName("n", maxLen)
 	var typ byte
 	fs := xWorld(nil)
